@@ -97,6 +97,7 @@ type PodGroupInfo struct {
 
 	// inner cache
 	tasksToAllocate             []*pod_info.PodInfo
+	tasksToAllocateIsReal       bool
 	tasksToAllocateInitResource *resource_info.Resource
 	PodStatusIndex              map[pod_status.PodStatus]pod_info.PodsMap
 	activeAllocatedCount        *int
